@@ -2,7 +2,7 @@
 (C10, C07, C02, C11/C06, C05, C03).  Drives the real J1939_22 object directly (no threads): stub bus, manual calls of the
 background pass.
 usage: /venv/bin/python f07_fd_sessions_j22.py [repo_root] [case]   -> exit 0 if the property holds, 1 if violated
-cases: peer_release | idx | abort_leak | bam_dup | mpg_wake | pdu2_filter | bam_ps | cts_spin | retransmit | all"""
+cases: peer_release | idx | abort_leak | bam_dup | mpg_wake | pdu2_filter | bam_ps | cts_spin | retransmit | eoms_early | eoma_bam | all"""
 import sys
 sys.path.insert(0, sys.argv[1] if len(sys.argv) > 1 else '/repo')
 import time
@@ -122,6 +122,31 @@ if case in ('retransmit', 'all'):
     if frames[0] != frames[1]:
         bad.append('retransmit: segment 1 sent again on request differs from its first transmission: %r... vs %r...'
                    % (frames[0][0][1][:8] if frames[0] else None, frames[1][0][1][:8] if frames[1] else None))
+
+if case in ('eoms_early', 'all'):
+    # broadcast of 130 octets = 3 segments; segment 2 is lost on the bus.  Segment 3 is rejected (out of order), but the
+    # end-of-message status (sizes match the announce) makes the receiver deliver the 60 octets it has
+    dll, sent, wakes, got = make()
+    dt = MessageId(priority=7, parameter_group_number=0x4E00, source_address=0x20)
+    dll._process_tp_cm(cm_mid(0x20), 255, cm(4, 1, 130, 3, 255, 0, 0xFEF1), 0.0)              # BAM
+    dll._process_tp_dt(dt, 255, [0x10, 1, 0, 0] + [1] * 60, 0.0)
+    dll._process_tp_dt(dt, 255, [0x10, 3, 0, 0] + [3] * 10 + [255] * 2, 0.0)                    # segment 2 lost
+    dll._process_tp_cm(cm_mid(0x20), 255, cm(2, 1, 130, 3, 0, 0, 0xFEF1), 0.0)                # EOM status
+    if got and len(got[0][5]) != 130:
+        bad.append('eoms_early: a message of 130 octets with one segment lost is delivered truncated (%d octets)' % len(got[0][5]))
+
+if case in ('eoma_bam', 'all'):
+    # an end-of-message acknowledge from the (illegal) source address 255 addressed to us hits our broadcast session
+    # (key (session, 0x90, 255)): the session is closed early and its number goes to the wrong pool
+    leaked = 0
+    dll, sent, wakes, got = make()
+    for i in range(4):
+        assert dll.send_pgn(0, 0xFE, 0xF1, 6, 0x90, list(range(100)), 0, FEFF)
+        dll._process_tp_cm(cm_mid(255), 0x90, cm(3, i, 100, 2, 255, 255, 0xFEF1), 0.0)
+        dll.async_job_thread(time.time() + 0.001)
+    if dll._snd_buffer == {} and not dll.send_pgn(0, 0xFE, 0xF1, 6, 0x90, list(range(100)), 0, FEFF):
+        bad.append('eoma_bam: stray end-of-message acknowledges closed 4 broadcast sessions and leaked their numbers: '
+                   'no broadcast session open, yet send_pgn refuses')
 
 for b in bad:
     print('VIOLATED', b)
